@@ -1,3 +1,3 @@
 #!/bin/sh
 # replays this counterexample against the real build
-cd /tmp/seedonly_C11e_14725 && VERIF_SCRIPT=/verif/replays/C11/VHarnessKeysetId_cc76c84d_0/script.json VERIF_RAW_SALT=0 GOFLAGS=-mod=mod GOPROXY=off go test -vet=off -count=1 -overlay /verif/replays/C11/VHarnessKeysetId_cc76c84d_0/overlay.json -run ^TestVerifReplay_VHarnessKeysetId$ -v ./crypto
+cd /tmp/seedrepo_C11e && VERIF_SCRIPT=/verif/replays/C11/VHarnessKeysetId_cc76c84d_0/script.json VERIF_RAW_SALT=0 GOFLAGS=-mod=mod GOPROXY=off go test -vet=off -count=1 -overlay /verif/replays/C11/VHarnessKeysetId_cc76c84d_0/overlay.json -run ^TestVerifReplay_VHarnessKeysetId$ -v ./crypto
